@@ -116,6 +116,28 @@ type Origin struct {
 	Gate    func(what string) // Mode S: called when an upstream call arrives
 	mu      sync.Mutex
 	orphans []*UpCall // calls without an exchange in their context
+	tags    map[string]*Exchange
+}
+
+// TagHeader is a request header field World.Run adds to every client request.
+// An upstream call is attributed to its exchange through the request context
+// when the cache hands the caller's context values on, and through this field
+// (which any request derived from the client's carries) when it does not - a
+// background request on a context of the cache's own, for instance. The field
+// is removed from the recorded copy of the upstream header, so no monitor
+// sees it.
+const TagHeader = "X-Verif-Exch"
+
+// Tag registers ex and returns the value of its TagHeader field.
+func (o *Origin) Tag(ex *Exchange) string {
+	o.mu.Lock()
+	defer o.mu.Unlock()
+	if o.tags == nil {
+		o.tags = map[string]*Exchange{}
+	}
+	t := fmt.Sprintf("x%d", ex.ID)
+	o.tags[t] = ex
+	return t
 }
 
 // Goid returns the id of the calling goroutine (Mode S names its actors by it).
@@ -161,6 +183,11 @@ func (f *failingBody) Close() error { return nil }
 // RoundTrip implements http.RoundTripper.
 func (o *Origin) RoundTrip(req *http.Request) (*http.Response, error) {
 	ex, _ := req.Context().Value(exchKey{}).(*Exchange)
+	if t := req.Header.Get(TagHeader); ex == nil && t != "" {
+		o.mu.Lock()
+		ex = o.tags[t]
+		o.mu.Unlock()
+	}
 	c := &UpCall{
 		Method: req.Method,
 		URL:    req.URL.String(),
@@ -168,6 +195,7 @@ func (o *Origin) RoundTrip(req *http.Request) (*http.Response, error) {
 		Header: req.Header.Clone(),
 		Enter:  time.Now(),
 	}
+	c.Header.Del(TagHeader)
 	if dl, ok := req.Context().Deadline(); ok {
 		c.HadDeadline, c.Deadline = true, dl
 	}
